@@ -140,7 +140,7 @@ theorem serviceBody_rpc (F : Nat) (name : String) (sI aI : Bool) (fI : String) (
 /-- a method without options and comments -/
 def SimpleRpc : Item → Prop
   | .rpc l _ name inT outT os =>
-    l.isNone ∧ os = [] ∧ IsIdent name ∧
+    l.noComments ∧ os = [] ∧ IsIdent name ∧
     (∃ (st abs : Bool) (first : String) (rest : List String), IsIdent first ∧ (∀ r ∈ rest, IsIdent r) ∧
       inT = rpcTyStr st abs first rest ∧ (st = false → abs = false → first ≠ "stream")) ∧
     (∃ (st abs : Bool) (first : String) (rest : List String), IsIdent first ∧ (∀ r ∈ rest, IsIdent r) ∧
@@ -153,7 +153,7 @@ def SimpleRpcs : List Item → Prop
 
 /-- a service without options and comments -/
 def SimpleService : Item → Prop
-  | .block kw t l _ name os ks => l.isNone ∧ os = [] ∧ IsIdent name ∧ kw = "service" ∧ t = 0 ∧ SimpleRpcs ks
+  | .block kw t l _ name os ks => l.noComments ∧ os = [] ∧ IsIdent name ∧ kw = "service" ∧ t = 0 ∧ SimpleRpcs ks
   | _ => False
 
 theorem SimpleRpc.plain : ∀ e, SimpleRpc e → Plain e
@@ -174,26 +174,26 @@ theorem serviceBody_close (F l : Nat) (more : List PTok) (os : List RawOpt) (ms 
     serviceBody (F + 1) (T (.sym '}') l :: more) os ms = some (os, ms, l, more) := by
   simp [serviceBody, T]
 
-theorem sb_rpcs : ∀ (es : List Item), SimpleRpcs es → ∀ (n : Nat) (first : Bool) (lt L : Nat) (g : Bool) (F : Nat)
+theorem sb_rpcs : ∀ (es : List Item), SimpleRpcs es → ∀ (n : Nat) (first : Bool) (le0 lt L : Nat) (g : Bool) (F : Nat)
     (os : List RawOpt) (ms : List Item) (rest : List PTok),
-    serviceBody ((F + 1) + es.length) (toksOf (elemsCmds n es first 0 lt) g L ++ rest) os ms =
-      serviceBody (F + 1) rest os (ms ++ (rdKids es first lt L g).1)
-  | [], _, n, first, lt, L, g, F, os, ms, rest => by simp [elemsCmds, toksOf_nil, rdKids]
-  | .rpc l i name inT outT opts :: r, h, n, first, lt, L, g, F, os, ms, rest => by
+    serviceBody ((F + 1) + es.length) (toksOf (elemsCmds n es first le0 lt) g L ++ rest) os ms =
+      serviceBody (F + 1) rest os (ms ++ (rdKids es first le0 lt L g).1)
+  | [], _, n, first, le0, lt, L, g, F, os, ms, rest => by simp [elemsCmds, toksOf_nil, rdKids]
+  | .rpc l i name inT outT opts :: r, h, n, first, le0, lt, L, g, F, os, ms, rest => by
     obtain ⟨⟨hl, ho, hname, ⟨sI, aI, fI, rI, hfI, hrI, hin, hkI⟩, ⟨sO, aO, fO, rO, hfO, hrO, hout, hkO⟩⟩, hr⟩ := h
     subst ho hin hout
-    rw [toksOf_elems_cons n (Item.rpc l i name (rpcTyStr sI aI fI rI) (rpcTyStr sO aO fO rO) []) r first lt g L ⟨hl, rfl⟩]
+    rw [toksOf_elems_cons n (Item.rpc l i name (rpcTyStr sI aI fI rI) (rpcTyStr sO aO fO rO) []) r first le0 lt g L ⟨hl, rfl⟩]
     simp only [itemToks, List.length_cons, List.append_assoc]
     rw [lineToks_rpc n name sI aI fI rI sO aO fO rO _ hname hfI hrI hfO hrO]
     have e : F + 1 + (r.length + 1) = (F + r.length) + 2 := by omega
     rw [e, serviceBody_rpc (F + r.length) name sI aI fI rI sO aO fO rO _ _ os ms hfI hfO hkI hkO]
     have e2 : F + r.length + 1 = (F + 1) + r.length := by omega
-    rw [e2, sb_rpcs r hr n false _ _ _ F os _ rest]
+    rw [e2, sb_rpcs r hr n false _ _ _ _ F os _ rest]
     simp only [rdKids, rdItem, List.append_assoc, List.cons_append, List.nil_append, startLine, gapBefore,
       Item.typeOrder, Item.gapEnder]
     rfl
-  | .field _ :: _, h, _, _, _, _, _, _, _, _, _ => h.1.elim
-  | .block _ _ _ _ _ _ _ :: _, h, _, _, _, _, _, _, _, _, _ => h.1.elim
+  | .field _ :: _, h, _, _, _, _, _, _, _, _, _, _ => h.1.elim
+  | .block _ _ _ _ _ _ _ :: _, h, _, _, _, _, _, _, _, _, _, _ => h.1.elim
 
 section
 variable {x : Char} (hx : Safe x)
@@ -208,16 +208,16 @@ theorem noCh_rpcTyStr (st abs : Bool) (first : String) (rest : List String) (hf 
   · exact noCh_lit hx "" (by simp)
   · exact noCh_lit hx "stream " (by simp)
 
-theorem simpleRpcs_noCh : ∀ (es : List Item) (n : Nat) (first : Bool) (lt : Nat), SimpleRpcs es →
-    CmdsNoCh x (elemsCmds n es first 0 lt)
-  | [], _, _, _, _ => by intro c hc; simp [elemsCmds] at hc
-  | .rpc l i name inT outT opts :: r, n, first, lt, h => by
+theorem simpleRpcs_noCh : ∀ (es : List Item) (n : Nat) (first : Bool) (le0 lt : Nat), SimpleRpcs es →
+    CmdsNoCh x (elemsCmds n es first le0 lt)
+  | [], _, _, _, _, _ => by intro c hc; simp [elemsCmds] at hc
+  | .rpc l i name inT outT opts :: r, n, first, le0, lt, h => by
     obtain ⟨⟨hl, ho, hname, ⟨sI, aI, fI, rI, hfI, hrI, hin, _⟩, ⟨sO, aO, fO, rO, hfO, hrO, hout, _⟩⟩, hr⟩ := h
     subst ho hin hout
-    rw [elemsCmds_cons_unloc n (Item.rpc l i name (rpcTyStr sI aI fI rI) (rpcTyStr sO aO fO rO) []) r first lt hl,
+    rw [elemsCmds_cons_unloc n (Item.rpc l i name (rpcTyStr sI aI fI rI) (rpcTyStr sO aO fO rO) []) r first le0 lt,
       rpcCmds_plain n l i name _ _ hl]
     refine CmdsNoCh.append (CmdsNoCh.append (cmdsNoCh_gapIf x _) (CmdsNoCh.append ?_ (cmdsNoCh_gap x)))
-      (simpleRpcs_noCh r n false _ hr)
+      (simpleRpcs_noCh r n false _ _ hr)
     apply cmdsNoCh_line
     unfold rpcLine
     apply noCh_ind hx
@@ -227,15 +227,15 @@ theorem simpleRpcs_noCh : ∀ (es : List Item) (n : Nat) (first : Bool) (lt : Na
       (noCh_rpcTyStr hx sI aI fI rI hfI hrI)) (noCh_lit hx ") returns (" (by simp)))
       (noCh_rpcTyStr hx sO aO fO rO hfO hrO)) (noCh_lit hx ")" (by simp))) (noCh_lit hx " {}" (by simp)))
       (noCh_lit hx "" (by simp))
-  | .field _ :: _, _, _, _, h => h.1.elim
-  | .block _ _ _ _ _ _ _ :: _, _, _, _, h => h.1.elim
+  | .field _ :: _, _, _, _, _, h => h.1.elim
+  | .block _ _ _ _ _ _ _ :: _, _, _, _, _, h => h.1.elim
 
 theorem simpleService_noCh : ∀ (e : Item) (n : Nat), SimpleService e → CmdsNoCh x (itemCmds n e)
   | .block kw t l i name os kids, n, h => by
     obtain ⟨hl, ho, hname, hkw, _, hk⟩ := h
     subst ho hkw
     rw [blockCmds_simple n "service" t l i name kids hl]
-    have hkids := simpleRpcs_noCh hx kids (n + 1) true 0 hk
+    have hkids := simpleRpcs_noCh hx kids (n + 1) true 0 0 hk
     apply CmdsNoCh.append _ (cmdsNoCh_gap x)
     split
     · apply cmdsNoCh_line
@@ -277,7 +277,7 @@ theorem top_service : ∀ (e : Item), SimpleService e → ∀ (s G : Nat) (a : A
     subst ho hkw ht
     simp only [need1] at hG
     have htr : trailOf (toksOf (elemsCmds (0 + 1) kids true 0 0) false (s + 1) ++
-        T (.sym '}') (rdKids kids true 0 (s + 1) false).2 :: more) = "" := trailOf_toksOf _ _ _ _ rfl
+        T (.sym '}') (rdKids kids true 0 0 (s + 1) false).2 :: more) = "" := trailOf_toksOf _ _ _ _ rfl
     have htr0 : trailOf (T (.sym '}') s :: more) = "" := rfl
     by_cases hempty : kids.isEmpty = true
     · have hnil : kids = [] := by simpa using hempty
@@ -295,7 +295,7 @@ theorem top_service : ∀ (e : Item), SimpleService e → ∀ (s G : Nat) (a : A
       simp only [List.cons_append, List.nil_append, List.append_assoc]
       rw [topLevel_service_step]
       obtain ⟨F', hGe⟩ : ∃ F', G = (F' + 1) + kids.length := ⟨G - kids.length - 1, by omega⟩
-      rw [hGe, sb_rpcs kids hk 1 true 0 (s + 1) false F' [] [] _, serviceBody_close]
+      rw [hGe, sb_rpcs kids hk 1 true 0 0 (s + 1) false F' [] [] _, serviceBody_close]
       simp only [List.nil_append, mkOpts, groupOpts, unlocateShared, List.map_nil, htr, mkLoc_plain]
 
 /-- what a file holds at its top level -/
@@ -315,37 +315,37 @@ theorem SimpleTops.plain : ∀ es, SimpleTops es → PlainList es
   | e :: r, h => ⟨SimpleTop.plain e h.1, SimpleTops.plain r h.2⟩
 
 theorem top_tops : ∀ (es : List Item), SimpleTops es →
-    ∀ (first : Bool) (lt L : Nat) (g : Bool) (F : Nat) (a : Acc) (rest : List PTok), trailOf rest = "" → needAll es ≤ F →
-    topLevel (F + es.length) (toksOf (elemsCmds 0 es first 0 lt) g L ++ rest) a =
-      topLevel F rest { a with items := a.items ++ (rdKids es first lt L g).1 }
-  | [], _, first, lt, L, g, F, a, rest, _, _ => by
+    ∀ (first : Bool) (le0 lt L : Nat) (g : Bool) (F : Nat) (a : Acc) (rest : List PTok), trailOf rest = "" → needAll es ≤ F →
+    topLevel (F + es.length) (toksOf (elemsCmds 0 es first le0 lt) g L ++ rest) a =
+      topLevel F rest { a with items := a.items ++ (rdKids es first le0 lt L g).1 }
+  | [], _, first, le0, lt, L, g, F, a, rest, _, _ => by
     simp [elemsCmds, toksOf_nil, rdKids]
-  | e :: r, h, first, lt, L, g, F, a, rest, hr, hF => by
+  | e :: r, h, first, le0, lt, L, g, F, a, rest, hr, hF => by
     simp only [SimpleTops] at h
     simp only [needAll] at hF
-    rw [toksOf_elems_cons 0 e r first lt g L (SimpleTop.plain e h.1)]
+    rw [toksOf_elems_cons 0 e r first le0 lt g L (SimpleTop.plain e h.1)]
     simp only [List.length_cons, List.append_assoc]
     have hstep : topLevel (F + r.length + 1)
-        (itemToks 0 e (startLine (g || gapBefore first lt e) L) ++
-          (toksOf (elemsCmds 0 r false 0 e.typeOrder) e.gapEnder (rdItem e (startLine (g || gapBefore first lt e) L)).2 ++ rest)) a =
-        topLevel (F + r.length) (toksOf (elemsCmds 0 r false 0 e.typeOrder) e.gapEnder
-          (rdItem e (startLine (g || gapBefore first lt e) L)).2 ++ rest)
-          { a with items := a.items ++ [(rdItem e (startLine (g || gapBefore first lt e) L)).1] } := by
+        (itemToks 0 e (startLine (g || gapBefore first le0 lt e) L) ++
+          (toksOf (elemsCmds 0 r false e.loc.endLine e.typeOrder) e.gapEnder (rdItem e (startLine (g || gapBefore first le0 lt e) L)).2 ++ rest)) a =
+        topLevel (F + r.length) (toksOf (elemsCmds 0 r false e.loc.endLine e.typeOrder) e.gapEnder
+          (rdItem e (startLine (g || gapBefore first le0 lt e) L)).2 ++ rest)
+          { a with items := a.items ++ [(rdItem e (startLine (g || gapBefore first le0 lt e) L)).1] } := by
       rcases h.1 with hs | hs
       · exact top_item e hs.1 hs.2 _ (F + r.length) a _ (trailOf_toksOf _ _ _ _ hr) (by omega)
       · exact top_service e hs _ (F + r.length) a _ (trailOf_toksOf _ _ _ _ hr) (by omega)
-    rw [← Nat.add_assoc, hstep, top_tops r h.2 false _ _ _ F _ rest hr (by omega)]
+    rw [← Nat.add_assoc, hstep, top_tops r h.2 false _ _ _ _ F _ rest hr (by omega)]
     simp only [rdKids, List.append_assoc, List.cons_append, List.nil_append, startLine, gapBefore]
     rfl
 
 
-theorem simpleTops_noCh {x : Char} (hx : Safe x) : ∀ (es : List Item) (first : Bool) (lt : Nat), SimpleTops es →
-    CmdsNoCh x (elemsCmds 0 es first 0 lt)
-  | [], _, _, _ => by intro c hc; simp [elemsCmds] at hc
-  | e :: r, first, lt, h => by
+theorem simpleTops_noCh {x : Char} (hx : Safe x) : ∀ (es : List Item) (first : Bool) (le0 lt : Nat), SimpleTops es →
+    CmdsNoCh x (elemsCmds 0 es first le0 lt)
+  | [], _, _, _, _ => by intro c hc; simp [elemsCmds] at hc
+  | e :: r, first, le0, lt, h => by
     simp only [SimpleTops] at h
-    rw [elemsCmds_cons_unloc 0 e r first lt (Plain.loc e (SimpleTop.plain e h.1))]
-    refine CmdsNoCh.append (CmdsNoCh.append (cmdsNoCh_gapIf x _) ?_) (simpleTops_noCh hx r false e.typeOrder h.2)
+    rw [elemsCmds_cons_unloc 0 e r first le0 lt]
+    refine CmdsNoCh.append (CmdsNoCh.append (cmdsNoCh_gapIf x _) ?_) (simpleTops_noCh hx r false e.loc.endLine e.typeOrder h.2)
     rcases h.1 with hs | hs
     · exact simpleItem_noCh hx e 0 hs.1
     · exact simpleService_noCh hx e 0 hs
